@@ -3,7 +3,7 @@
    runner and by vm_compute inside Coq (Cases_*.v). *)
 From Coq Require Import List NArith ZArith Bool String.
 From Coq.Strings Require Import Byte.
-From OAP Require Import Base.Bytes Base.Res Base.Text Gen.Consts Model.Handshake.
+From OAP Require Import Base.Bytes Base.Res Base.Text Gen.Consts Model.Handshake Model.Metadata.
 Import ListNotations.
 Local Open Scope N_scope.
 
@@ -58,12 +58,80 @@ Definition run_hs (op : bytes) (args : list bytes) : bytes :=
     end
   else bad.
 
+(* ---- metadata ---- *)
+Definition pair_s (kv : bytes * bytes) : bytes := hex (fst kv) ++ str ":" ++ hex (snd kv).
+Definition map_s (m : list (bytes * bytes)) : bytes :=
+  match m with [] => str "-" | _ => join (str ",") (map pair_s m) end.
+Definition parse_pair (b : bytes) : option (bytes * bytes) :=
+  match split_on ":"%byte b with
+  | [k; v] => obind (unhex k) (fun k' => obind (unhex v) (fun v' => Some (k', v')))
+  | _ => None
+  end.
+Definition parse_map (b : bytes) : option (list (bytes * bytes)) :=
+  if bytes_eqb b (str "-") then Some [] else omap_all parse_pair (split_on ","%byte b).
+
+Definition sum_len (l : list bytes) : nat := fold_left (fun a x => (a + List.length x)%nat) l O.
+
+Definition run_md (op : bytes) (args : list bytes) : bytes :=
+  if bytes_eqb op (str "md.mstr") then
+    match args with
+    | [h] => match unhex h with
+             | Some s => match marshal_string s with Some b => str "OK " ++ hex b | None => str "TOOLONG" end
+             | None => bad end
+    | _ => bad end
+  else if bytes_eqb op (str "md.mlen") then
+    match omap_all undec args with
+    | Some [n] =>
+        match marshal_string (repeat "A"%byte (N.to_nat n)) with
+        | Some b => str "OK " ++ hex (firstn (if n <=? 127 then 1 else 2) b) ++ sp ++ decn (List.length b)
+        | None => str "TOOLONG" end
+    | _ => bad end
+  else if bytes_eqb op (str "md.ulen") then
+    match args with
+    | [h] => match unhex h with
+             | Some d => res_s (fun x => decn (fst x) ++ sp ++ dec (snd x)) (unmarshal_len d)
+             | None => bad end
+    | _ => bad end
+  else if bytes_eqb op (str "md.unm") then
+    match args with
+    | [h] => match unhex h with
+             | Some d => res_s map_s (unmarshal_values d)
+             | None => bad end
+    | _ => bad end
+  else if bytes_eqb op (str "md.unmn") then
+    (* block = [hi;lo] ++ n x 'a' ++ [0] : one key with the given 2-byte prefix, empty value *)
+    match omap_all undec args with
+    | Some [hi; lo; n] =>
+        res_s (fun m => decn (List.length m) ++ sp ++ decn (sum_len (map fst m)) ++ sp ++ decn (sum_len (map snd m)))
+              (unmarshal_values (b8 hi :: b8 lo :: repeat "a"%byte (N.to_nat n) ++ ["000"%byte]))
+    | _ => bad end
+  else if bytes_eqb op (str "md.mar") then
+    match args with
+    | [mx; m] => match undecz mx, parse_map m with
+                 | Some mx', Some l => hex (marshal_values (md_of_list l) mx')
+                 | _, _ => bad end
+    | _ => bad end
+  else if bytes_eqb op (str "md.set") then
+    match args with
+    | [k; v; m] => match unhex k, unhex v, parse_map m with
+                   | Some k', Some v', Some l => res_s map_s (md_set k' v' (md_of_list l))
+                   | _, _, _ => bad end
+    | _ => bad end
+  else if bytes_eqb op (str "md.get") then
+    match args with
+    | [k; m] => match unhex k, parse_map m with
+                | Some k', Some l => hex (md_get k' (md_of_list l))
+                | _, _ => bad end
+    | _ => bad end
+  else bad.
+
 Definition starts_with (p l : bytes) : bool := bytes_eqb p (firstn (List.length p) l).
 
 Definition run_line (line : bytes) : bytes :=
   match words line with
   | op :: args =>
       if starts_with (str "hs.") op then run_hs op args
+      else if starts_with (str "md.") op then run_md op args
       else bad
   | [] => bad
   end.
